@@ -292,18 +292,21 @@ PROPS["C08"] = dict(
 
 
 PROPS["C15"] = dict(
-    level_text="Machine-checked proof (Lean 4) about the model of App::run (Cli.run: three arms, per-mode wiring table, fixed section order): the printed sections are exactly the requested ones the "
-               "mode implements (C15.sections_exact), in the documented order grounded, complete, (two-valued,) stable... (sections_in_documented_order), each once (sections_nodup), one block per "
-               "section (run_blocks); the hybrid default implements every section; malformed input gives a non-zero exit and no output (rejects_malformed). PARTIAL: that every block equals the "
-               "specification's answer (cli_faithful_statement) is the composition of C01-C05's exactness statements and is not proved as one theorem. Tie to the code: the REAL adf-bdd binary, "
-               "built from the current tree, is run on generated files x --lib {naive, biodivine, hybrid} x {none, --lx, --an} x single flags and random flag sets x --heu; exit status, "
-               "well-formedness of every line (each statement labelled by its own name, in variable order) and the line sequence are compared with the model, the multiset of lines with the "
-               "specification; six kinds of malformed files must be rejected with empty stdout; --export must not overwrite and --import must reproduce the answers (also serves C14).",
-    level_note="Trusted: Lean kernel + standard axioms; process behaviour (exit codes, panics, file system) is observed, not proved; with --stmrew/--stmrew2 the whole output is compared as a multiset "
-               "(candidate order is biodivine's); KNOWN FINDING D6: a quoted label containing one of !&|^=<>()?: aborts --lib biodivine and the default --lib hybrid (biodivine rejects the variable name).",
-    technique="Lean 4 proof (wiring and ordering of the CLI model) + correspondence of the real binary with the model and the specification",
+    level_text="Machine-checked proof (Lean 4) about the model of App::run (Cli.run: three arms, per-mode wiring table, fixed section order, the hybrid arm working on the pre-grounded conditions): "
+               "FAITHFULNESS - for every mode, flag set, heuristic and every printed block, the block is, as a multiset of interpretations, the specification's answer for its section "
+               "(C15.cli_faithful; composition of the exactness theorems of C01-C05, the pre-grounding lemmas and SpecSound; hypothesis: the nogood-search sections halt within the model's fixed "
+               "fuel of 10^6 iterations - unconditional without --twoval/--stmng (cli_faithful_without_search_flags) and for every sufficiently large bound (cli_faithful_every_large_bound)); the three "
+               "modes print the same sets for common sections (modes_print_same_sets); the printed sections are exactly the requested ones the mode implements (sections_exact), in the documented "
+               "order (sections_in_documented_order), each once (sections_nodup), one block per section (run_blocks); malformed input gives a non-zero exit and no output (rejects_malformed). "
+               "Tie to the code: the REAL adf-bdd binary, built from the current tree, is run on generated files x --lib {naive, biodivine, hybrid} x {none, --lx, --an} x single flags and random "
+               "flag sets x --heu, with alphanumeric, keyword-like, numeric and quoted (non-ASCII, quote, backslash) labels: exit status, format of every line (each statement labelled by its own name, "
+               "in variable order) and the line sequence are compared with the model; the specification judges the output section by section in the documented order; --counter nai is compared with "
+               "the model's counts; six kinds of malformed files must be rejected with empty stdout; --export must not overwrite and --import must reproduce the answers.",
+    level_note="Trusted: Lean kernel + standard axioms; process behaviour (exit codes, panics, file system) is observed, not proved; KNOWN FINDING D6: a quoted label containing one of !&|^=<>()?: aborts "
+               "--lib biodivine and the default --lib hybrid (biodivine rejects the variable name); the model's fixed search fuel (10^6) is a hypothesis of cli_faithful.",
+    technique="Lean 4 proof (composition of the semantics theorems over the CLI's wiring; ordering of sections) + correspondence of the real binary with the model and, section by section, with the specification",
     jobs=[Job("adf", 120, 2500, size=5, size_thorough=6, extra=("cli",), timeout=900, needs_bins=True,
-              relevant=heads("cli", "clirun", "clibad", "cliexport", "cliq", "clicount"), nontrivial=lambda st: int(st.get("n", 0)) >= 2)],
+              relevant=heads("cli", "clirun", "clicheck", "clibad", "cliexport", "cliq", "clicount"), nontrivial=lambda st: int(st.get("n", 0)) >= 2)],
     rule=ADF_GEN + "per ADF six invocations of the real binary (4 single-flag, 2 random flag sets; random mode, sorting, heuristic, fact permutation, label class, layout), one malformed file "
          "(missing terminator / trailing garbage / unbalanced bracket / wrong arity / unknown connective / leading blank), every 10th ADF an export-twice-then-import run; "
          "non-trivial = distinct ADF with >= 2 statements",
